@@ -5,6 +5,7 @@ CONSTANTS
   BaseSeq <- BasesQuick
   WrapSeq <- WrapsAll
   RenSeq <- RensMC
+  DocSet <- DocBoth
   Family = "all"
   MaxFields = 2
   MaxDepth = 4
